@@ -44,10 +44,14 @@ MergeItems(items) ==
                     ELSE <<>>) \o M(i + 1)
   IN M(1)
 
+(* the five built-in scalars are defined implicitly: `extend scalar String @d` is no orphan (its applications are judged below) *)
+BuiltinScalarNames == {"Int", "Float", "String", "Boolean", "ID"}
+IsBuiltinScalarExt(d) == IsExtT(d) /\ d.k = "scalar" /\ d.name \in BuiltinScalarNames
 MergeViol(items) ==
   UNION {LET d == items[i] IN
          IF IsOrigT(d) /\ \E j \in 1..(i - 1) : IsOrigT(items[j]) /\ items[j].k = d.k /\ items[j].name = d.name
          THEN V("DuplicateDefinition", d.name)
+         ELSE IF IsBuiltinScalarExt(d) THEN {}
          ELSE IF IsExtT(d) /\ ~\E j \in DOMAIN items : IsOrigT(items[j]) /\ items[j].k = d.k /\ items[j].name = d.name
          THEN V("OrphanExtension", d.name)
          ELSE IF d.k = "schema" /\ ~d.ext /\ \E j \in 1..(i - 1) : items[j].k = "schema" /\ ~items[j].ext
@@ -167,7 +171,11 @@ DefViol(S, d) ==
 TSViolationsMerged(S) ==
   UNION {DefViol(S, S[i]) \cup (IF S[i].k \in TypeKinds /\ Reserved(S[i].name) THEN V("ReservedName", S[i].name) ELSE {}) : i \in DOMAIN S}
 
+(* directive applications that extensions put on a built-in scalar: judged on the concatenation of all its extensions, at location SCALAR *)
+BuiltinExtViol(S, items) ==
+  UNION {LET exts == SelectSeq(items, LAMBDA d : IsBuiltinScalarExt(d) /\ d.name = n)
+         IN IF exts = <<>> THEN {} ELSE TDirs(S, Cat(exts, "dirs"), "SCALAR") : n \in BuiltinScalarNames}
 TSViolations(items) ==
   LET mv == MergeViol(items) IN
-  IF mv # {} THEN mv ELSE TSViolationsMerged(MergeItems(items))
+  IF mv # {} THEN mv ELSE LET S == MergeItems(items) IN TSViolationsMerged(S) \cup BuiltinExtViol(S, items)
 =============================================================================
